@@ -114,12 +114,15 @@ P = {
   note=TRUST + "Nine open findings on the VCF writer in known_findings.json; the decomposition clauses hold.",
   tech="Coq proof over executable Gallina model (writers + parsers, round trip) + differential correspondence on real output files (vm_compute)"),
  "C13": dict(
-  text="PARTIAL proof + two-build differential. Proved over Transport.v: for the abstract stage (fit of catalogue variants + reference evidence per "
+  text="Proof (same-strand builds) + PARTIAL proof (opposite strands) + two-build differential. Proved over Transport.v: for the abstract stage (fit of catalogue variants + reference evidence per "
        "site, per-site admissibility) results commute with any injective SITE-PRESERVING transport of variants; same-strand builds always are; "
        "opposite strands are not when two non-insertion variants of different footprint start at one RefSeq base (witness; hypothesis cannot be "
        "dropped); and the ACTUAL major-stage specification of C02 (MajorSpec.score, admissible, enum_all) commutes with every such transport "
-       "(C13_major_*: same scores, same admissibility, one-to-one enumeration). NOT proved: the same for the candidate filter, the copy-number "
-       "and the minor stage. Decided by running the real stages on the same "
+       "(C13_major_*: same scores, same admissibility, one-to-one enumeration); for two builds on one strand the WHOLE major stage incl. evidence "
+       "filters and candidate selection (C13_major_stage_same_strand), the minor-stage specification of C04 incl. phase term, admissibility and "
+       "property clauses (C13_minor_*, strictly increasing position maps) and the normalised region depths that feed the copy-number stage "
+       "(C13_region_depths_equivariant, shifts and strand mirroring) are proved equivariant. NOT proved: the minor-stage evidence filter, and "
+       "major/minor filters on opposite strands. Decided by running the real stages on the same "
        "evidence transported through the RefSeq maps between hg19/hg38 (shipped genes) and between opposite strands (generated databases), and on "
        "simulated alignments against each build; structures, majors, minors, scores and RefSeq-expressed added/lost variants are compared.",
   note=TRUST + "pysam, simulator, CBC, indelpost. Open findings (opposite-strand same-site sub+del, phase term, indel support anchor, realigner, exact ties) in known_findings.json.",
